@@ -1107,8 +1107,13 @@ class Agent(dbus.service.Object):
             return
 
         if ExtensionKey.SENDER_LISTEN in extmap:
-            interval_ms = int(extmap[ExtensionKey.SENDER_LISTEN])
+            interval_ms = extmap[ExtensionKey.SENDER_LISTEN]
             node_id = extmap.get(ExtensionKey.SENDER_NODEID, '')
+            if (not isinstance(interval_ms, int) or not 0 <= interval_ms < 2 ** 31
+                    or not isinstance(node_id, str)):
+                # peer-supplied values which the polling_received signal cannot carry
+                self.__logger.error('Ignoring invalid Sender Listen %s from %s', repr(interval_ms), repr(node_id))
+                return
             self.__logger.info('Sender Listen for %d ms from %s', interval_ms, node_id)
 
             data = cbor2.dumps({
